@@ -1,7 +1,8 @@
-Require Import Base Contain.
+Require Import Base Contain Perimeter.
 Require Import Extraction ExtrOcamlBasic.
 Extraction Blacklist List String Int.
 Extraction "../ocaml/extracted/c14.ml" contain spec_contain on_boundary wn
   contain_all contain_any inside all_inside any_inside mkpolygon
-  signed_area2 area2 shoelace2 perimeter_edges edge_vectors Z.abs Z.mul Z.to_N.
+  signed_area2 area2 shoelace2 perimeter_edges edge_vectors Z.abs Z.mul Z.to_N
+  perimeter_bits perimeter_Z spec_perimeter_Z_bits.
 (* Z.to_N: brings the type `n` that ocaml/conv.ml mentions into the extracted module *)
